@@ -19,6 +19,8 @@
 
 const char *verif_harness = "slab_conc";
 using namespace verif;
+// frees the storage of an object created with `new T` without running its destructor (scratch pools are abandoned, not torn down)
+template<typename T> void raw_delete(T *p) { if constexpr(alignof(T) > __STDCPP_DEFAULT_NEW_ALIGNMENT__) ::operator delete((void *)p, std::align_val_t(alignof(T))); else ::operator delete((void *)p); }
 
 namespace {
 constexpr size_t ARENA = size_t(1) << 30;
@@ -248,7 +250,7 @@ void run(Ctx &c, int nb) {
 			long second = (long)pl->numUsedPages() - first;
 			inflight_small = false; inflight_class = -1;
 			if(scratch.map_calls >= 2 && second != first) exact = false;
-			expect += first * kv.second; ::operator delete(pl);
+			expect += first * kv.second; raw_delete(pl);
 			scratch.map_calls = 0;
 		}
 		W = saved;
